@@ -67,6 +67,10 @@ extern "C" {
  */
 
 #define WFCQ_ADAPT_ATTEMPTS		10	/* Retry if being set */
+#ifdef URCU_VERIF_WFCQ_ADAPT_ATTEMPTS
+#undef WFCQ_ADAPT_ATTEMPTS
+#define WFCQ_ADAPT_ATTEMPTS URCU_VERIF_WFCQ_ADAPT_ATTEMPTS
+#endif
 #define WFCQ_WAIT			10	/* Wait 10 ms if being set */
 
 /*
